@@ -649,6 +649,54 @@ def main():
                     ck.broken.append('correspondence: isatty refusals, %s tty=%s'
                                      % (driver_line(c), c['tty']))
     groups['T'] = n_tty
+    # ---- ignored options must not change a single output BYTE: a multi-block
+    # input with runs, on which the options that DO matter (-u, the level) are
+    # visible in the compressed bytes (control), so that an ignored option
+    # taking the effect of a real one cannot hide behind "still valid"
+    import subprocess as _sp
+    rr = ck.rng
+    body = b''.join(bytes([rr.randrange(97, 105)]) * rr.choice([1, 1, 2, 3, 4, 5, 9, 40])
+                    for _ in range(60000))[:260000]
+
+    def comp(args, env=None):
+        e = {k: v for k, v in os.environ.items()
+             if not k.startswith('LBZIP2') and k not in ('BZIP2', 'BZIP')}
+        e.update(env or {})
+        r = _sp.run([exe] + args, input=body, capture_output=True, env=e, timeout=120)
+        return (r.returncode, r.stdout, r.stderr)
+    ref = comp(['-1'])
+    ctl = comp(['-1', '-u'])
+    n_bytes = 0
+    if ref[0] != 0 or ctl[0] != 0 or ref[1] == ctl[1]:
+        ck.broken.append('no-op byte test: control failed (-u does not change '
+                         'the bytes of the probe input)')
+    else:
+        probes = []
+        for t in NOOPS_TOK:
+            probes += [([t, '-1'], None), (['-1', t], None)]
+            for ev in ('LBZIP2', 'BZIP2', 'BZIP'):
+                probes.append((['-1'], {ev: t}))
+        probes += [(['-1s'], None), (['-s1'], None), (['-1q'], None),
+                   (['-qs1'], None), (['-1', '-sq'], None)]
+        for args, env in probes:
+            got = comp(args, env)
+            n_bytes += 1
+            if got != ref:
+                d = next((i for i in range(min(len(got[1]), len(ref[1])))
+                          if got[1][i] != ref[1][i]), min(len(got[1]), len(ref[1])))
+                violation('an option documented as ignored changed the output: '
+                          'lbzip2 %s (env %s) gives status %d, %d bytes, first '
+                          'difference at byte %d of the stream written without '
+                          'it (%d bytes)%s' % (
+                              ' '.join(args), env, got[0], len(got[1]), d, len(ref[1]),
+                              '; the output equals that of -u' if got[1] == ctl[1] else ''),
+                          {'argv': ['lbzip2'] + args, 'env': env or {},
+                           'stdin': 'seeded run-structured text, 260000 bytes '
+                                    '(VERIF_SEED=%d ./check C22 regenerates it)' % ck.seed,
+                           'stdin_head_hex': body[:200].hex(),
+                           'observed': 'status %d, %d bytes' % (got[0], len(got[1])),
+                           'without_noop': 'status %d, %d bytes' % (ref[0], len(ref[1]))})
+    groups['noop-bytes'] = n_bytes
     ck.log('groups %s; model outcomes %s; documented-rule cases %d'
            % (groups, kinds, n_doc))
     ck.finish({
